@@ -18,6 +18,7 @@ func pureExternal(fn *types.Func) bool {
 	switch {
 	case strings.HasPrefix(n, "(*sync.Mutex)."), strings.HasPrefix(n, "(*sync.RWMutex)."),
 		strings.HasPrefix(n, "(*sync.WaitGroup)."), strings.HasPrefix(n, "(*sync.Cond)."),
+		strings.HasPrefix(n, "(*sync.Pool)."),
 		strings.HasPrefix(n, "fmt."), strings.HasPrefix(n, "(*log."), strings.HasPrefix(n, "log."),
 		strings.HasPrefix(n, "github.com/cockroachdb/errors."),
 		strings.HasPrefix(n, "github.com/cockroachdb/redact."),
@@ -76,6 +77,9 @@ func (x *Exec) call(s *State, fr *Frame, call *ast.CallExpr) Value {
 	info := fr.info
 	// conversion
 	if tv, ok := info.Types[call.Fun]; ok && tv.IsType() {
+		if at, ok := info.Types[call.Args[0]]; ok && at.IsNil() {
+			return x.zero(s, tv.Type) // T(nil)
+		}
 		v := x.expr(s, fr, call.Args[0])
 		return x.convert(s, fr, v, info.TypeOf(call.Args[0]), tv.Type, call.Pos(), exprText(x.w.Fset, call))
 	}
@@ -278,6 +282,15 @@ func (x *Exec) receiver(s *State, fr *Frame, sel *ast.SelectorExpr, si *types.Se
 					p = ""
 				}
 				return &PtrV{Rgn: l.rgn, Off: l.off, Prov: p}, rt
+			}
+			// a package-level variable of a dependency's type (sync.Pool, sync.Once, ...)
+			// used as the receiver of one of its own methods: its state is not tracked,
+			// the receiver is an opaque non-nil pointer
+			if id, ok := ast.Unparen(sel.X).(*ast.Ident); ok {
+				if v, ok := fr.info.Uses[id].(*types.Var); ok && v.Parent() == v.Pkg().Scope() &&
+					fn.Pkg() != nil && !strings.HasPrefix(fn.Pkg().Path(), repoModule) {
+					return &PtrV{Rgn: x.ctx.Const("global$"+sanitize(v.Pkg().Path()+"."+v.Name()), SBV64), Off: I64(0)}, rt
+				}
 			}
 			unsup("pointer-receiver call on non-addressable or non-escaping value %s", exprText(x.w.Fset, sel.X))
 		case !wantPtr && havePtr:
